@@ -47,12 +47,12 @@ class IndependentIterations(object):
             shape, fn, _ = npm.info(st, it.inner)
             n = shape[0]
             member = lambda kk: band(compare('<=', 0, kk), compare('<', kk, n))
-            target_val = (arith('+', ks, it.start), npm.getitem(st, it.inner, ks))
+            target_val = lambda s_: (arith('+', ks, it.start), npm.getitem(s_, it.inner, ks))
         elif is_array(it) and not isinstance(it, Masked):
             shape, fn, _ = npm.info(st, it)
             n = shape[0]
             member = lambda kk: band(compare('<=', 0, kk), compare('<', kk, n))
-            target_val = npm.getitem(st, it, ks)
+            target_val = lambda s_: npm.getitem(s_, it, ks)
         else:
             raise Unsupported("loop %d of %s over %r needs a loop contract" % (ordinal, fr.qualname, it))
 
@@ -68,6 +68,8 @@ class IndependentIterations(object):
         pre_heap = dict(st.heap)
         body_st = st.fork()
         body_st.assume_pc(member(ks))
+        if callable(target_val):
+            target_val = target_val(body_st)       # element access under the membership condition
         interp.assign(node.target, body_st.box(target_val), body_st, fr)
         outs = interp.exec_block(node.body, body_st, fr)
         results = []
